@@ -199,10 +199,15 @@ func (p *exeParser) readFragment() (sel Selection, err error) {
 		case "on":
 			var t Type
 			if t, err = p.readType(); err == nil {
-				if _, ok := t.(*Ref); ok {
+				switch t.(type) {
+				case *Ref:
 					// at the name, the token read last
 					err = parseError(p.tokLine, p.tokCol-1, "type %s not defined", t.Name())
-				} else {
+				case *List, *NonNull, *Directive:
+					// A condition is the name of a type, [T], T! and the
+					// name of a directive are not.
+					err = parseError(p.tokLine, p.tokCol-1, "%s is not a type a fragment can be conditioned on", t.Name())
+				default:
 					sel, err = p.readInline(t)
 				}
 			}
